@@ -252,6 +252,9 @@ class Extractor:
                 pa = {"regex": a[0], "text": []}
                 cur["proof_after"].append(pa)
                 sub = pa["text"]
+            elif s.startswith("//@proof_end"):
+                cur["proof_end"] = []
+                sub = cur["proof_end"]
             elif s.startswith("//@add"):
                 sub = add
             elif s.startswith("//@"):
@@ -436,6 +439,17 @@ class Extractor:
                     self.out.emit_src(src, k, " " * col + l[col:])
             else:
                 self.out.emit_src(src, k, l if k == open_ln else self.rewrite_line(l, copts))
+            if k == last and f.get("proof_end"):
+                # I4: ghost proof block placed immediately before the closing brace of the body
+                self.out.lines.pop(); self.out.origin.pop()
+                col = p_close - src.starts[k]
+                if src.lines[k][:col].strip():
+                    raise LostAnchor("proof_end: fn %s does not end with a lone `}`" % name)
+                for pl in f["proof_end"]:
+                    if pl.strip():
+                        self.out.emit(pl)
+                        self.hit("I4.proof_lines")
+                self.out.emit_src(src, k, l)
             if k in pa_lines:
                 for pl in pa_lines[k]:
                     if pl.strip():
